@@ -32,6 +32,7 @@ func main() {
 	dump := flag.String("dump", "", "debug: dump SSA of pkgrel:func")
 	noFx := flag.Bool("nofixtures", false, "debug: skip positive controls")
 	only := flag.String("only", "", "debug: run only rules with this prefix")
+	out := flag.String("out", "", "evidence output directory (default <verif>/evidence)")
 	flag.Parse()
 	if *tier == "" {
 		*tier = os.Getenv("VERIF_TIER")
@@ -85,6 +86,9 @@ func main() {
 	for _, id := range ids {
 		d := props[id]
 		r := newReport(id, *tier, seed, *verif)
+		if *out != "" {
+			r.outDir = *out
+		}
 		if err != nil {
 			r.Begin(id+".load", "LOAD", "the repository loads and type-checks (linux/amd64, no tests)", 0)
 			r.Fail("repo", "load-error", "packages load without error", err.Error(), "", nil)
